@@ -678,6 +678,20 @@ class C11(Check):
                 add(prog, rng.choice(INPUTS), [], {"role": "syntax", "splice": what}, ("syntax-certain", "bytes"))
             else:
                 add(prog, rng.choice(INPUTS), [], {"role": "mutant", "splice": what}, ("syntax-maybe", "bytes"), False)
+        # ------------------------------------------------------------ (h) number spellings that are no number: an exponent marker with a
+        # sign and no digits (`2e+`), doubled dots, a sign glued after a dot -- in executed and in never-executed positions; a program
+        # holding one is rejected before anything runs. Spellings a dialect might accept (`1e5`, `0x10`, `1_000`) are "maybe" cases:
+        # whatever the verdict, a syntax outcome comes with no output, and model and implementation agree
+        for lit, certain in [("2e+", True), ("7E-", True), ("1e+", True), ("2e-", True), ("1.5e+", True), ("3e+ ", True), ("1..2", True), ("1.2.3", True),
+                             ("1.", True), ("1e", False), ("1e5", False), ("1.5e3", False), ("1e+2", False), ("0x10", False), ("1_000", False), ("2E-3", False)]:
+            for tmpl in ["BEGIN { print \"start\"; if (0) { x = %s } print \"done\" }", "BEGIN { print \"start\"\n x = %s\n print \"done\" }",
+                         "function never() { return %s }\nBEGIN { print \"start\" }\n{ print }", "{ print \"rec\" }\nEND { if (false) print %s }",
+                         "BEGIN { print \"start\" }\n$ > 5 && false && %s { print }"]:
+                prog = tmpl % lit
+                if certain:
+                    add(prog, rng.choice(INPUTS), [], {"role": "syntax", "splice": "malformed number spelling %r" % lit}, ("syntax-certain", "number-spelling"))
+                else:
+                    add(prog, rng.choice(INPUTS), [], {"role": "mutant", "splice": "dialect number spelling %r" % lit}, ("syntax-maybe", "number-spelling"), False)
         # ------------------------------------------------------------ (g) repeated keys / repeated elements
         for lit, exp, what, fi in dup_literals(rng, quick):
             hosts = DUP_HOSTS if not quick else rng.sample(DUP_HOSTS, 2)
